@@ -25,6 +25,9 @@ pub struct CfgSpec {
     pub pre_auth: u64,
     pub read_card_timeout: u8,
     pub max_tx: u8,
+    /// `transactions_max_num` beyond what `max_tx` can say (the field is a usize); overrides it.
+    #[serde(default)]
+    pub max_tx_wide: Option<u64>,
 }
 
 impl CfgSpec {
@@ -37,6 +40,7 @@ impl CfgSpec {
             pre_auth: 2500,
             read_card_timeout: 15,
             max_tx: 1,
+            max_tx_wide: None,
         }
     }
 }
@@ -390,7 +394,7 @@ pub fn execute(plan: &ClientPlan) -> ClientRun {
         feig_serial: plan.cfg.serial.clone(),
         ip_address: Ipv4Addr::new(192, 168, 0, 59),
         feig_config,
-        transactions_max_num: plan.cfg.max_tx as usize,
+        transactions_max_num: plan.cfg.max_tx_wide.map(|v| v as usize).unwrap_or(plan.cfg.max_tx as usize),
         ..Config::default()
     };
 
